@@ -48,6 +48,11 @@ CFGS = {
     "MCLifeQ2": mc(LIFE, MaxNotify="1", MaxEnds="2", MaxSaves="0", MaxAcks="1"),
     "MCLife": mc(LIFE, MaxEnds="1"),
     "MCLife2": mc(LIFE, MaxNotify="1"),
+    # Close() while a save is in flight that then fails: the final save waits for the lock of a save that must put its marks back
+    "MCLifeFQ": mc(LIFE, NVB="1", MaxNotify="0", MaxEnds="0", MaxSaves="1", MaxAcks="1", MaxSeq="2", FailSaves="TRUE"),
+    "SimLifeF": simc(LIFE, 40, NVB="1", MaxNotify="0", MaxEnds="0", MaxSaves="2", MaxAcks="2", MaxSeq="2", FailSaves="TRUE"),
+    "WitLifeF": wit(LIFE, NVB="1", MaxNotify="0", MaxEnds="0", MaxSaves="1", MaxAcks="1", MaxSeq="2", FailSaves="TRUE"),
+    "WitReplayLifeF": rep(LIFE, NVB="1", MaxSeq="3", MaxSaves="5", MaxAcks="5", MaxNotify="5", MaxEnds="6", Hold="TRUE", FailSaves="TRUE"),
     "MCLifeF5": mc(LIFE, Bugs='{"F5"}', MaxEnds="0", MaxSaves="0", MaxAcks="0", AllowClose="FALSE"),   # expected to violate C11
     "MCLifeF2": mc(LIFE, Bugs='{"F2"}', MaxNotify="1", MaxEnds="0", MaxSaves="0", MaxAcks="0"),        # expected to violate C13
     "MCLifeGaps": mc(LIFE, Gaps=GAPS, MaxNotify="1", MaxSaves="0", MaxAcks="0"),                       # expected to violate (F6, F8)
@@ -76,6 +81,16 @@ CFGS = {
     "WitReplayLife1": rep(LIFE, NVB="1", MaxSeq="3", MaxSaves="5", MaxAcks="5", MaxNotify="5", MaxEnds="6", Hold="TRUE"),
     "WitReplayLife": rep(LIFE, MaxSeq="3", MaxSaves="5", MaxAcks="5", MaxNotify="5", MaxEnds="6", Hold="TRUE"),
     # ---- start-up faults ------------------------------------------------------------------------------------
+    # a fail-over while streaming: transient end, re-open answered ROLLBACK(r), history above r discarded, new snapshots
+    "MCReopenQ": mc(GEN, MaxSeq="3", Kinds='{"mut"}', Keys='{"user"}', OldEvents="FALSE", BadEvents="FALSE", MaxEnds="1",
+                    EndCauses='{"statechanged"}', MaxCrash="0", MaxSaves="0", MaxAcks="1", MaxGen="6"),
+    "MCReopen": mc(GEN, MaxSeq="3", Kinds='{"mut", "adv"}', Keys='{"user"}', OldEvents="FALSE", BadEvents="FALSE", MaxEnds="2",
+                   EndCauses='{"statechanged", "socket"}', MaxCrash="0", MaxSaves="1", MaxAcks="1", MaxGen="6"),
+    "SimReopen": simc(GEN, 44, MaxSeq="4", Kinds='{"mut", "del", "adv"}', Keys='{"user"}', OldEvents="FALSE", BadEvents="FALSE", MaxEnds="3",
+                      EndCauses='{"statechanged", "socket"}', MaxCrash="0", MaxSaves="1", MaxAcks="2", MaxGen="8"),
+    "WitReopen": wit(GEN, MaxSeq="3", Kinds='{"mut"}', Keys='{"user"}', OldEvents="FALSE", BadEvents="FALSE", MaxEnds="1",
+                     EndCauses='{"statechanged"}', MaxCrash="0", MaxSaves="0", MaxAcks="1", MaxGen="6"),
+    "WitReplayReopen": rep(GEN, MaxSeq="4", MaxSaves="10", MaxAcks="10", MaxCrash="0", MaxGen="8", MaxEnds="6", EndCauses='{"statechanged", "socket"}'),
     "MCRoQ": mc(DATA, ReadOnly="TRUE", MaxAcks="1", MaxSaves="1", MaxGen="1", FailSaves="FALSE", AllowClose="TRUE", AutoCkpt="TRUE"),
     "MCRo": mc(DATA, ReadOnly="TRUE", MaxAcks="1", FailSaves="FALSE", AllowClose="TRUE", AutoCkpt="TRUE"),
     "SimRo": simc(DATA, 44, ReadOnly="TRUE", Savers='{"p", "c"}', FailSaves="FALSE", AllowClose="TRUE", AutoCkpt="TRUE"),
